@@ -97,6 +97,21 @@ MUTATIONS = [
      "what": "DSeparationJudgement.create checks for emptiness by iterating once, then sorts: a one-shot iterable loses its first element",
      "old": "        conditions = tuple(sorted(set(conditions), key=str))\n        return cls(separated, left, right, conditions)",
      "new": "        if not any(True for _ in conditions):\n            return cls(separated, left, right, ())\n        conditions = tuple(sorted(set(conditions), key=str))\n        return cls(separated, left, right, conditions)"},
+    # ---------------------------------------------------------------- get_conditional_independencies / powerset (C15)
+    {"id": "m15_powerset_len_of_argument", "props": ["C15"], "file": "src/y0/util/combinatorics.py",
+     "what": "powerset takes len() of its argument instead of the list it made: one-shot iterables have no len()",
+     "old": "    s = list(iterable)\n    n = len(s)", "new": "    s = list(iterable)\n    n = len(iterable)"},
+    {"id": "m15_powerset_iterates_twice", "props": ["C15"], "file": "src/y0/util/combinatorics.py",
+     "what": "powerset counts the elements by iterating, then lists them: a one-shot iterable is empty the second time",
+     "old": "    s = list(iterable)\n    n = len(s)", "new": "    n = sum(1 for _ in iterable)\n    s = list(iterable)"},
+    {"id": "m15_graph_keyword_renamed", "props": ["C15"], "file": CI,
+     "what": "get_conditional_independencies: parameter graph renamed (keyword callers break)",
+     "old": "def get_conditional_independencies(\n    graph: NxMixedGraph,\n    *,",
+     "new": "def get_conditional_independencies(\n    admg: NxMixedGraph,\n    *,\n    graph: None = None,"},
+    {"id": "m15_policy_none_not_defaulted", "props": ["C15"], "file": CI,
+     "what": "get_conditional_independencies only computes the topological policy when the argument is omitted (sentinel), an explicit policy=None reaches min(key=None) on judgements",
+     "old": "    if policy is None:\n        policy = get_topological_policy(graph)\n    return minimal(",
+     "new": "    if policy is None and max_conditions is not None:\n        policy = get_topological_policy(graph)\n    if policy is None:\n        return {min(vs) for _, vs in groupby(sorted(d_separations(graph, max_conditions=max_conditions, **kwargs), key=_judgement_grouper), _judgement_grouper)}\n    return minimal("},
 ]
 
 
